@@ -1210,5 +1210,6 @@ P.theorems = P.theorems + [
     ("TracklibVerif.Tie.C08", "TV.Tie.C08.tie_eval", "the translation of the CURRENT source of geometry.__eval equals the model's evalLine"),
     ("TracklibVerif.Tie.C08", "TV.Tie.C08.tie_isSegmentIntersects", "the translation of the CURRENT source of geometry.isSegmentIntersects equals the model's straddle test on all pairs of segments"),
     ("TracklibVerif.Tie.C08", "TV.Tie.C08.tie_groundDistanceToUnits", "the translation of the CURRENT source of SpatialIndex.groundDistanceToUnits equals the model's, ZeroDivisionError included (the model's == 0 test is Python's)"),
+    ("TracklibVerif.Tie.C08", "TV.Tie.C08.tie_getCellR", "the translation of the CURRENT source of SpatialIndex.__getCell (range tests, divisions with their ZeroDivisionError, caps min(index, size)) equals the model's executed form getCellR"),
     ("TracklibVerif.Tie.C08", "TV.Tie.C08.tie_isSegmentIntersects_short1", "the translated isSegmentIntersects raises IndexError when the first list has fewer than four numbers"),
 ]
